@@ -4,8 +4,10 @@
        (length of the text) - (length of the suffix);
      * a backslash inside a string literal skips the next BYTE while scanning; the raw slice is
        unescaped afterwards only if a backslash was seen;
-     * `\uXXXX` goes through u32::from_str_radix(_, 16) (which also accepts a leading '+') and
-       char::from_u32 (which rejects D800..DFFF: surrogate PAIRS are therefore an error, as in the code);
+     * `\uXXXX` goes through u32::from_str_radix(_, 16) (which also accepts a leading '+'); a value in
+       D800..DBFF immediately followed by `\u` + four hex characters giving DC00..DFFF is combined into
+       one code point above FFFF (both escapes consumed); otherwise nothing more is consumed and
+       char::from_u32 decides: any remaining D800..DFFF (unpaired high or low surrogate) is an error;
      * commas are skipped wherever they occur inside arrays and objects (`[,1 2,,]` parses);
      * number text -> f64 is Rust's str::parse::<f64>, an oracle (Section variable), numbers are bit patterns;
      * error values are only Err.
@@ -67,11 +69,15 @@ Definition hex4 (a b c d : Z) : option Z :=
   | _, _, _ => None
   end.
 
-(* String::push(char) for a code point below 0x10000 *)
+(* String::push(char) *)
 Definition utf8_encode (cp : Z) : list Z :=
   if cp <? 128 then [cp]
   else if cp <? 2048 then [192 + cp / 64; 128 + cp mod 64]
-  else [224 + cp / 4096; 128 + (cp / 64) mod 64; 128 + cp mod 64].
+  else if cp <? 65536 then [224 + cp / 4096; 128 + (cp / 64) mod 64; 128 + cp mod 64]
+  else [240 + cp / 262144; 128 + (cp / 4096) mod 64; 128 + (cp / 64) mod 64; 128 + cp mod 64].
+
+Definition is_high_surrogate (cp : Z) : bool := (55296 <=? cp) && (cp <? 56320).
+Definition is_low_surrogate (cp : Z) : bool := (56320 <=? cp) && (cp <? 57344).
 
 Definition is_surrogate (cp : Z) : bool := (55296 <=? cp) && (cp <=? 57343).
 
@@ -105,7 +111,22 @@ Fixpoint unescape (l : list Z) : res (list Z) :=
                   if ascii4 h1 h2 h3 h4 then
                     match hex4 h1 h2 h3 h4 with
                     | Some cp =>
-                        if is_surrogate cp then Err
+                        if is_high_surrogate cp then
+                          (* look ahead for the low half; without it cp stays a surrogate and char::from_u32 fails *)
+                          match r2 with
+                          | 92 :: 117 :: l1 :: l2 :: l3 :: l4 :: r3 =>
+                              if ascii4 l1 l2 l3 l4 then
+                                match hex4 l1 l2 l3 l4 with
+                                | Some lo =>
+                                    if is_low_surrogate lo then
+                                      rmap (fun t => utf8_encode (65536 + (cp - 55296) * 1024 + (lo - 56320)) ++ t) (unescape r3)
+                                    else Err
+                                | None => Err
+                                end
+                              else Err
+                          | _ => Err
+                          end
+                        else if is_surrogate cp then Err
                         else rmap (fun t => utf8_encode cp ++ t) (unescape r2)
                     | None => Err
                     end
